@@ -34,6 +34,7 @@ DECIDED = [
     "R-C16-CATEGORY (round 5): category comparisons by equality; Message.__init__ defaults exactly a None category to NORMAL; R-C16-CALLBACKS: the callback loop iterates the live list (a callback registered by a running callback runs)",
     "R-C16-EAGER (round 6): an eager action performs the action it is named after and no other; an eager response inside a dependency propagates out of the gathers (C18 chain reused)",
     "R-C16-AWAITED: in the files this property is anchored in, no bare statement calls a coroutine function (the operation would never run)",
+    "R-C16-CALLBACKS / R-C16-EAGER (sweep stage two): an eager response reports the outcome recorded last if any, else the action's default; the retry delay chosen by presence",
 ]
 NOT_DECIDED = ["user code catching BaseException inside an actor (outside the analysed program)"]
 ASSUMPTIONS = ["Message actions are only reachable through the methods analysed (no monkey-patching)"]
@@ -52,6 +53,10 @@ def run(ctx: Ctx) -> None:
     from .shared import every_operation_awaited
 
     every_operation_awaited(ctx, "R-C16-AWAITED")  # in the files this property is anchored in, no asynchronous operation is created and dropped
+    from .shared import eager_outcome_defaults, retry_delay_defaults
+
+    eager_outcome_defaults(ctx, "R-C16-CALLBACKS")  # the result store takes the outcome set last, else the action's default
+    retry_delay_defaults(ctx, "R-C16-EAGER")
     from .C18 import DEPENDS, chain
 
     with ctx.as_rule("R-C16-EAGER"):
